@@ -145,10 +145,16 @@ func Digest(r io.Reader, hashFunc crypto.Hash) (*CabinetDigest, error) {
 	}
 	if cab.SignatureHeader != nil {
 		// read old signature for verification purposes
-		cab.Signature = make([]byte, cab.SignatureHeader.SignatureSize)
-		if _, err := io.ReadFull(r, cab.Signature); err != nil {
+		// the size has not been checked against the actual file, so read
+		// incrementally instead of allocating it all up front
+		var sig bytes.Buffer
+		if _, err := io.CopyN(&sig, r, int64(cab.SignatureHeader.SignatureSize)); err != nil {
+			if err == io.EOF {
+				err = io.ErrUnexpectedEOF
+			}
 			return nil, err
 		}
+		cab.Signature = sig.Bytes()
 	}
 	// ensure there is nothing after the cabinet and signature
 	if _, err := r.Read(make([]byte, 1)); err == nil {
